@@ -382,12 +382,16 @@ fn dump_block<'tcx>(
         match &s.kind {
             StatementKind::Assign(b) => {
                 let (p, rv) = &**b;
-                stmts.push(J::Obj(vec![
+                let mut so = vec![
                     ("k".into(), jstr("assign")),
                     ("lhs".into(), place(tcx, body, p)),
                     ("rv".into(), rvalue(tcx, env, body, rv)),
                     ("at".into(), jstr(sp)),
-                ]));
+                ];
+                if !p.projection.is_empty() {
+                    so.push(("lhs_ty".into(), jstr(ty_str(p.ty(&body.local_decls, tcx).ty))));
+                }
+                stmts.push(J::Obj(so));
             }
             StatementKind::SetDiscriminant { place: p, variant_index } => {
                 let pty = p.ty(&body.local_decls, tcx).ty;
